@@ -164,7 +164,7 @@ def run(ctx):
         cpython_slices(ctx, model, rng)
         for k in range(ctx.n(16, 300)):
             n = (int(rng.integers(3, 8)), int(rng.integers(3, 8)), int(rng.integers(3, 12)))
-            arr = gen.cube(rng, n)
+            arr = gen.cube(rng, n, rare=False)   # (positions are recognised by value: see gen.cube)
             il0, xl0 = int(rng.integers(1, 60)), int(rng.integers(1, 600))
             ils = int([1, -1, 2, -2, 3, -3][k % 6])
             xls = int([1, 2, -1, -3, 1, 4][(k // 2) % 6])
